@@ -906,7 +906,11 @@ RunBound(ms, sig, prevModel, acc) ==
     ELSE LET mu == Head(ms)
              nxt == Sim(mu, sig).sig
              tbl == IF mu.m \in DOMAIN sig THEN sig[mu.m].table ELSE "?"
-         IN IF MergeableKind(mu)
+             \* a ChangeField that restates the type the field already has is an attribute change
+             sameType == mu.k = "Chg" /\ mu.ftype # None /\ "db_column" \notin DOMAIN mu.attrs
+                         /\ mu.m \in DOMAIN sig /\ mu.f \in DOMAIN sig[mu.m].fields
+                         /\ sig[mu.m].fields[mu.f].ftype = mu.ftype
+         IN IF MergeableKind(mu) \/ sameType
             THEN RunBound(Tail(ms), nxt, mu.m, IF mu.m = prevModel THEN acc ELSE Bump(acc, tbl, 1))
             ELSE IF mu.k = "Chg" THEN RunBound(Tail(ms), nxt, None, Bump(acc, tbl, 1))
             ELSE RunBound(Tail(ms), nxt, None, acc)
